@@ -96,6 +96,9 @@ def run_shard(spec):
         if not chunks:
             chunks = [["s", ""]]
         case = {"kind": "str", "chunks": chunks}
+        if rnd.random() < 0.25:
+            # the words are packed from characters, wherever the directive stands: after an odd number of bytes too
+            case["before"] = rnd.choice([".byte 1", ".ascii /abc/", ".byte 1, 2, 3", ".rad50 /A/\n.byte 7", ".odd", "lbl: .byte 377"])
         res["violations"].extend(run_case(case, cnt))
         cnt["strings"] += 1
         res["evaluations"] += 1
@@ -162,6 +165,14 @@ def run_shard(spec):
             rej.append({"kind": "rej_code", "n": n})
         for n in range(0, 40):
             rej.append({"kind": "ok_code", "n": n})
+        # codes spelled in other ways than '<n.>': octal by default (so a bare 8 or 9 is no number), radix prefixes, signs, arithmetic; in
+        # the first, a middle or the last chunk
+        for txt, val in [("-1", None), ("-50", None), ("8", None), ("9", None), ("39", None), ("18", None), ("-8", None), ("50", None), ("47", 39), ("7", 7), ("-0", 0),
+                         ("1+1", 2), ("0-1", None), ("47+1", None), ("^D39", 39), ("^D40", None), ("^X27", 39), ("^X28", None), ("^B100111", 39), ("^B101000", None),
+                         ("-^D1", None), ("^O47", 39), ("^O50", None), ("39.", 39), ("40.", None), ("-1.", None), ("0x27", 39), ("0x28", None), ("2*24", None), ("2*23", 38),
+                         ("100-61", 15), (" <47> ", 39), (" <50> ", None), ("(-1)", None), ("^C0", None), ("~0", None), ("177777", None), ("200000", None), ("-177777", None)]:
+            for shape in ("last", "first", "middle"):
+                rej.append({"kind": "rej_code_text" if val is None else "ok_code_text", "txt": txt, "val": val, "shape": shape})
         for k in (4, 5, 6):
             for _ in range(10):
                 rej.append({"kind": "rej_long", "lit": "".join(rnd.choice(ALPHABET[1:]) for _ in range(k))})
@@ -255,8 +266,13 @@ def run_case(case, cnt=None):
                 parts.append(f'"{v}"')
                 codes.extend(ALPHABET.index(c.upper()) for c in v)
         src = ".rad50 " + " ".join(parts) + "\n"
-        o = asm.assemble([("/c15/main.mac", src)])
         exp = b"".join(w.to_bytes(2, "little") for w in _expect_words(codes))
+        if case.get("before"):
+            src = case["before"] + "\n" + src
+            exp = {".byte 1": b"\x01", ".ascii /abc/": b"abc", ".byte 1, 2, 3": b"\x01\x02\x03", ".rad50 /A/\n.byte 7": b"\x40\x06\x07", ".odd": b"\x00", "lbl: .byte 377": b"\xff"}[case["before"]] + exp
+            if cnt is not None:
+                cnt["strings_at_odd_address"] = cnt.get("strings_at_odd_address", 0) + 1
+        o = asm.assemble([("/c15/main.mac", src)])
         if o.cls != "ok":
             viol(f"valid .rad50 string rejected: {src!r} {o.brief()}")
         elif o.code != exp:
@@ -275,6 +291,18 @@ def run_case(case, cnt=None):
         elif kind == "ok_code":
             src = f'.rad50 "A" <{case["n"]}.>\n'
             want = None
+        elif kind in ("rej_code_text", "ok_code_text"):
+            src = {"last": '.rad50 /AB/ <{}>\n', "first": '.rad50 <{}> /AB/\n', "middle": '.rad50 /B/ <{}> /A/\n'}[case["shape"]].format(case["txt"])
+            want = "ANY"
+            if kind == "ok_code_text":
+                codes = {"last": [1, 2, case["val"]], "first": [case["val"], 1, 2], "middle": [2, case["val"], 1]}[case["shape"]]
+                exp = b"".join(w.to_bytes(2, "little") for w in _expect_words(codes))
+                o = asm.assemble([("/c15/main.mac", src)])
+                if o.cls != "ok" or o.code != exp:
+                    viol(f"{src!r}: code {case['val']} must be accepted and packed as {exp.hex()}; got {o.brief()}")
+                elif cnt is not None:
+                    cnt["code_spellings_packed"] = cnt.get("code_spellings_packed", 0) + 1
+                return out
         elif kind == "rej_long":
             src = f'.word ^R{case["lit"]}\n'
             want = "invalid-string"
